@@ -12,6 +12,7 @@ SELS = [
     (["gen", "g"], "a"), (["gen2", "g"], "a"), (["D", "g"], "a"), (["g"], "a"),
     (["D", "gen", "g"], "a"), (["D", "gen"], "x"), (["gen"], "x"), (["gen2"], "i"), (["D"], "d"),
     (["D", "gen2", "g"], "a"), (["D"], "r"), (["gen4"], "x"), (["gen4", "g"], "a"), (["gen5", "g"], "a"), (["gen5"], "r"), (["gen6", "g"], "a"), (["gen6", "g"], "a"),
+    (["gen7"], "w"), (["gen7", "gen2", "g"], "a"), (["gen7", "gen2"], "i"),
 ]
 YIELD_FROM_SELS = [(["gen3", "g"], "a"), (["gen3", "gen2", "g"], "a"), (["gen3"], "z"), (["gen3", "gen2"], "i")]
 
@@ -62,7 +63,7 @@ def gen(rng, tier, quarantine=()):
         ops.append({"op": "mk", "id": pid, "kind": kinds[pid], "sels": [mk_sel(chain, focus)],
                     "inv": "C09.no_foreign_events"})
     if "overlay" in kinds.values():
-        for f in ("g", "gen", "gen2", "gen3", "gen4", "gen5", "gen6", "D"):
+        for f in ("g", "gen", "gen2", "gen3", "gen4", "gen5", "gen6", "gen7", "D"):
             ops.insert(0, {"op": "tool", "fn": f, "how": "inplace"})
     pending = list(kinds)
     live = []
@@ -74,7 +75,7 @@ def gen(rng, tier, quarantine=()):
         ops.append({"op": "enter", "id": pid})
         live.append(pid)
     if rng.random() < 0.7:
-        ops.append({"op": "gen_new", "gen": "g0", "fn": rng.choice(["gen", "gen2", "gen4", "gen5", "gen6"]), "nargs": 1,
+        ops.append({"op": "gen_new", "gen": "g0", "fn": rng.choice(["gen", "gen2", "gen4", "gen5", "gen6", "gen7", "gen7"]), "nargs": 1,
                     "cycle": rng.random() < 0.25})
         gens.append("g0")
         ng = 1
@@ -91,7 +92,7 @@ def gen(rng, tier, quarantine=()):
         elif r < 0.40 and len(gens) < 2:
             gname = f"g{ng}"
             ng += 1
-            ops.append({"op": "gen_new", "gen": gname, "fn": rng.choice(["gen", "gen2", "gen4", "gen5", "gen6", "gen6"] + (["gen3"] * 3 if yf else [])),
+            ops.append({"op": "gen_new", "gen": gname, "fn": rng.choice(["gen", "gen2", "gen4", "gen5", "gen6", "gen6", "gen7", "gen7"] + (["gen3"] * 3 if yf else [])),
                         "nargs": 1, "cycle": rng.random() < 0.25})
             gens.append(gname)
         elif r < 0.62 and gens:
